@@ -571,6 +571,7 @@ namespace TV.DTW
 section final
 variable {α : Type} [LinearOrder α]
 
+omit [LinearOrder α] in
 theorem cellAt_dcols (D : Nat → Nat → α) (n1 n2 i j : Nat) (hi : i < n2) (hj : j < n1) :
     cellAt (dcols D n1 n2) i j = some (D i j) := by
   unfold cellAt dcols
